@@ -275,8 +275,6 @@ class Policy:
         tmp = []
         effects = []
 
-        if len(field_values) == 0:
-            return []
         if sec not in self.keys():
             return []
         if ptype not in self[sec]:
